@@ -14,11 +14,15 @@ import (
 //	Kind   task | call | agg | inc
 //	Iter   -1 = not an iterator; n >= 0 = iterator producing n instances
 //	       (for: begin 0, end n-1; n == 0 is an empty range)
+//	Off    0 = enabled; 1 = `enabled: "false"`; 2 = `enabled` is a template
+//	       expression that evaluates to false. A disabled role (and everything
+//	       below it) is absent from the loaded tree.
 type Spec struct {
 	ID   int     `json:"id"`
 	Kind string  `json:"kind"`
 	Crit bool    `json:"crit,omitempty"`
 	Iter int     `json:"iter"`
+	Off  int     `json:"off,omitempty"`
 	Kids []*Spec `json:"kids,omitempty"`
 }
 
@@ -27,6 +31,8 @@ type genCfg struct {
 	maxFan     int
 	maxLeaves  int
 	emptyIterP float64
+	offP       float64 // any listed role disabled
+	offCritP   float64 // a non-critical-only aggregator gets an extra DISABLED critical child
 }
 
 type gen struct {
@@ -62,6 +68,9 @@ func (g *gen) node(depth int, forceNonCrit bool) *Spec {
 			s.Iter = 0
 		}
 	}
+	if g.r.Float64() < g.cfg.offP {
+		s.Off = 1 + g.r.Intn(2)
+	}
 	switch s.Kind {
 	case "task", "call":
 		s.Crit = !forceNonCrit && g.r.Intn(100) < 62
@@ -71,6 +80,47 @@ func (g *gen) node(depth int, forceNonCrit bool) *Spec {
 		for i := 0; i < n; i++ {
 			s.Kids = append(s.Kids, g.node(depth+1, fnc))
 		}
+		if fnc && g.r.Float64() < g.cfg.offCritP {
+			// the only critical role(s) listed below this aggregator are disabled:
+			// after loading it has no critical descendant
+			k := g.offCritical(depth + 1)
+			at := g.r.Intn(len(s.Kids) + 1)
+			s.Kids = append(s.Kids[:at], append([]*Spec{k}, s.Kids[at:]...)...)
+		}
+	}
+	return s
+}
+
+// offCritical generates a disabled role that is (or contains only) critical
+// leaves: a task, a call, an iterator of them, or an aggregator / include of them.
+func (g *gen) offCritical(depth int) *Spec {
+	s := &Spec{ID: g.id(), Iter: -1, Off: 1 + g.r.Intn(2)}
+	leaf := func() *Spec {
+		l := &Spec{ID: g.id(), Kind: "task", Crit: true, Iter: -1}
+		if g.r.Intn(4) == 0 {
+			l.Kind = "call"
+		}
+		return l
+	}
+	x := g.r.Intn(100)
+	switch {
+	case x < 55 || depth >= g.cfg.maxDepth:
+		s.Kind, s.Crit = "task", true
+		if x < 10 {
+			s.Kind = "call"
+		}
+	case x < 85:
+		s.Kind = "agg"
+		s.Kids = []*Spec{leaf()}
+		if g.r.Intn(2) == 0 {
+			s.Kids = append(s.Kids, leaf())
+		}
+	default:
+		s.Kind = "inc"
+		s.Kids = []*Spec{leaf()}
+	}
+	if g.r.Intn(100) < 30 {
+		s.Iter = 1 + g.r.Intn(3)
 	}
 	return s
 }
@@ -92,6 +142,9 @@ func genTree(r *rand.Rand, cfg genCfg) *Spec {
 }
 
 func countLeaves(s *Spec, mult int) int {
+	if s.Off != 0 {
+		return 0
+	}
 	if s.Iter >= 0 {
 		mult *= s.Iter
 	}
@@ -108,7 +161,7 @@ func countLeaves(s *Spec, mult int) int {
 // permuted returns a deep copy with the children of every aggregator / include
 // listed in a different (random) order. IDs are preserved.
 func permuted(s *Spec, r *rand.Rand) *Spec {
-	c := &Spec{ID: s.ID, Kind: s.Kind, Crit: s.Crit, Iter: s.Iter}
+	c := &Spec{ID: s.ID, Kind: s.Kind, Crit: s.Crit, Iter: s.Iter, Off: s.Off}
 	for _, k := range s.Kids {
 		c.Kids = append(c.Kids, permuted(k, r))
 	}
@@ -135,6 +188,9 @@ func compact(s *Spec) string {
 	var sb strings.Builder
 	var w func(s *Spec)
 	w = func(s *Spec) {
+		if s.Off != 0 {
+			sb.WriteByte('!')
+		}
 		if s.Iter >= 0 {
 			fmt.Fprintf(&sb, "%d*", s.Iter)
 		}
@@ -199,7 +255,9 @@ func instName(s *Spec, i int) string {
 // it includes) into files.
 func render(root *Spec, wf string, files map[string]string) {
 	var sb strings.Builder
-	fmt.Fprintf(&sb, "name: %s\nroles:\n", wf)
+	// c11_on is "false": `enabled: "{{ c11_on == 'true' }}"` evaluates to false
+	// (included workflows see the variable through their parent's defaults)
+	fmt.Fprintf(&sb, "name: %s\ndefaults:\n  c11_on: \"false\"\nroles:\n", wf)
 	renderRoles(&sb, root.Kids, 1, wf, files)
 	files["workflows/"+wf+".yaml"] = sb.String()
 }
@@ -208,6 +266,12 @@ func renderRoles(sb *strings.Builder, kids []*Spec, ind int, wf string, files ma
 	pad := strings.Repeat("  ", ind)
 	for _, k := range kids {
 		fmt.Fprintf(sb, "%s- name: \"%s\"\n", pad, roleName(k))
+		switch k.Off {
+		case 1:
+			fmt.Fprintf(sb, "%s  enabled: \"false\"\n", pad)
+		case 2:
+			fmt.Fprintf(sb, "%s  enabled: \"{{ c11_on == 'true' }}\"\n", pad)
+		}
 		if k.Iter >= 0 {
 			fmt.Fprintf(sb, "%s  for:\n%s    begin: 0\n%s    end: %d\n%s    var: it%d\n", pad, pad, pad, k.Iter-1, pad, k.ID)
 		}
